@@ -92,6 +92,15 @@ func drawNCase(t *rapid.T, o nOpts) sim.NCase {
 			c.Steps = append(c.Steps, sim.NStep{K: "timeout"})
 		}
 	}
+	if o.Scenarios && rapid.IntRange(0, 4).Draw(t, "next-height?") == 0 {
+		// scenario: candidates built for the NEXT height arrive while the node is still one height behind (future cache), then the
+		// node completes its height and the cache is drained into the new term (judged by the store-time invariants)
+		for i := rapid.IntRange(1, 2).Draw(t, "next-cands"); i > 0; i-- {
+			c.Steps = append(c.Steps, sim.NStep{K: "cand", Next: true, Kind: rapid.SampledFrom(o.Kinds).Draw(t, "kind"), From: rapid.IntRange(0, 8).Draw(t, "from"),
+				A: rapid.IntRange(0, 15).Draw(t, "a"), B: rapid.IntRange(0, 63).Draw(t, "b"), Muts: drawMutations(t, o)})
+		}
+		c.Steps = append(c.Steps, sim.NStep{K: "round"})
+	}
 	for i := rapid.IntRange(1, o.MaxCands).Draw(t, "ncand"); i > 0; i-- {
 		c.Steps = append(c.Steps, sim.NStep{K: "cand", Kind: rapid.SampledFrom(o.Kinds).Draw(t, "kind"), From: rapid.IntRange(0, 8).Draw(t, "from"),
 			A: rapid.IntRange(0, 15).Draw(t, "a"), B: rapid.IntRange(0, 63).Draw(t, "b"), Muts: drawMutations(t, o)})
@@ -143,7 +152,7 @@ func nProperty(t *testing.T, o nOpts) {
 
 // C07 — a node acts in a view > 0 only on a valid NEW_VIEW certificate (engine N).
 func TestC07N(t *testing.T) {
-	nProperty(t, nOpts{Focus: "C07", Kinds: []string{"NV", "NV", "NV", "NV", "PP", "VC"}, MaxCands: 3})
+	nProperty(t, nOpts{Focus: "C07", Kinds: []string{"NV", "NV", "NV", "NV", "PP", "VC"}, MaxCands: 3, Scenarios: true})
 }
 
 // C08 — only authentic, in-committee, role- and height-correct messages change state (engine N).
@@ -179,4 +188,63 @@ func init() {
 func TestC18N(t *testing.T) {
 	nProperty(t, nOpts{Focus: "C18", Kinds: []string{"PP", "PP", "NV", "NV", "P", "VC"}, MaxCands: 4,
 		Mutations: []string{"sender", "sender", "sender", "view", "nvpp-signer", "sig"}})
+}
+
+// C13 (engine N part): views at the top of the 64-bit range. The node follows valid NEW_VIEWs into views up to 2^64-1 and then
+// times out there; its (height, view) must never go back (a view that wraps to 0 is a decrease) and its election
+// registrations must stay lexicographically non-decreasing.
+func TestC13N(t *testing.T) {
+	col := ev.Get("C13")
+	rapid.Check(t, func(t *rapid.T) {
+		cfg, me := drawNConfig(t, "C13")
+		c := sim.NCase{Cfg: cfg, Me: me}
+		bases := []uint64{^uint64(0), ^uint64(0), ^uint64(0) - 8, 1 << 63, 1<<63 - 4, 1 << 32, 1 << 31, 3}
+		var views []uint64
+		for i := rapid.IntRange(1, 3).Draw(t, "jumps"); i > 0; i-- {
+			b := rapid.SampledFrom(bases).Draw(t, "base")
+			views = append(views, b-uint64(rapid.IntRange(0, 4).Draw(t, "below")))
+		}
+		for i := range views { // ascending: a NEW_VIEW for a lower view is stale
+			for j := i + 1; j < len(views); j++ {
+				if views[j] < views[i] {
+					views[i], views[j] = views[j], views[i]
+				}
+			}
+		}
+		for k := rapid.IntRange(0, 2).Draw(t, "timeouts-first"); k > 0; k-- {
+			c.Steps = append(c.Steps, sim.NStep{K: "timeout"})
+		}
+		for _, v := range views {
+			c.Steps = append(c.Steps, sim.NStep{K: "propose", View: v, A: rapid.IntRange(0, 15).Draw(t, "pa")})
+			if rapid.Bool().Draw(t, "prepares") {
+				c.Steps = append(c.Steps, sim.NStep{K: "prepares", View: v})
+			}
+			for k := rapid.IntRange(0, 3).Draw(t, "timeouts"); k > 0; k-- {
+				c.Steps = append(c.Steps, sim.NStep{K: "timeout"})
+			}
+		}
+		r := sim.RunNCase(c)
+		col.Case()
+		top := r.W.Obs.MaxView
+		switch {
+		case top == ^uint64(0):
+			col.Class("N:reached-view-2^64-1")
+		case top >= 1<<63:
+			col.Class("N:reached-view>=2^63")
+		case top >= 1<<31:
+			col.Class("N:reached-view>=2^31")
+		}
+		if top >= 1<<31 {
+			b, _ := json.Marshal(c)
+			col.NonTrivial(string(b))
+		}
+		col.Sample(func() interface{} { return c })
+		if v := r.W.Viol; v != nil {
+			v.Replayer = "N"
+			v.Case = c
+			if msg := ev.Report(v); msg != "" {
+				t.Fatal(msg)
+			}
+		}
+	})
 }
